@@ -295,8 +295,15 @@ impl ContiguousIntervalPair {
         // coordinate pointed to the end of a [`ContiguousIntervalPair`]. Thus,
         // we _must_ do the unchecked `move_forward` method below after
         // liftover.
-        let query_end = self
-            .liftover(
+        //
+        // The exception is an empty clamped interval (the operand only touches
+        // the reference interval, or either of them has no length): there is
+        // no position before its end to go through, and the query interval is
+        // the (empty) image of that single point.
+        let query_end = if reference.start() == reference.end() {
+            query_start.clone()
+        } else {
+            self.liftover(
                 &reference
                     .end()
                     .clone()
@@ -306,7 +313,8 @@ impl ContiguousIntervalPair {
             )
             .unwrap()
             .move_forward(1)
-            .unwrap();
+            .unwrap()
+        };
 
         let query = Interval::try_new(query_start, query_end).unwrap();
         ContiguousIntervalPair::try_new(reference, query)
